@@ -189,8 +189,9 @@ def write_arff_dense(table, sp):
     lines = arff_header(table, sp)
     sep = sp.get("sep", ",")
     for i, row in enumerate(table["rows"]):
-        if sp.get("comments") and _dec(sp, "cd", i).chance(0.25):
-            lines.append(_dec(sp, "cd2", i).choice(["%", "% a,b,c", "%?", "% {0 1}"]))
+        if sp.get("comments") and _dec(sp, "cd", i).chance(0.3):
+            for m in range(_dec(sp, "cd3", i).choice([1, 1, 2, 3])):
+                lines.append(_dec(sp, "cd2", i, m).choice(["%", "% a,b,c", "%?", "% {0 1}", "%'"]))
         if sp.get("blanks") and _dec(sp, "bd", i).chance(0.25):
             lines.append(_dec(sp, "bd2", i).choice(["", " "]))
         line = sep.join(arff_cell(c, v, sp, ("cell", i, j)) for j, (c, v) in enumerate(zip(table["cols"], row)))
@@ -223,8 +224,9 @@ def write_arff_sparse(table, sp):
     lines = arff_header(table, sp)
     sep = sp.get("sparse_sep", ",")
     for i, row in enumerate(table["rows"]):
-        if sp.get("comments") and _dec(sp, "cd", i).chance(0.25):
-            lines.append(_dec(sp, "cd2", i).choice(["%", "% {0 1}", "%?"]))
+        if sp.get("comments") and _dec(sp, "cd", i).chance(0.3):
+            for m in range(_dec(sp, "cd3", i).choice([1, 1, 2, 3])):
+                lines.append(_dec(sp, "cd2", i, m).choice(["%", "% {0 1}", "%?", "% 1,2"]))
         if sp.get("blanks") and _dec(sp, "bd", i).chance(0.25):
             lines.append("")
         items = []
@@ -743,7 +745,7 @@ def arff_features(case):
     for k in sorted(sp):
         if k in ("sseed", "style"):
             continue
-        if sp[k] in (None, False, "", "lower", "single", ",", " ") and k != "date_fmt":
+        if sp[k] in (None, False):
             continue
         feats.append(("sp-" + k + ("=" + str(sp[k]).replace("\t", "TAB").replace(" ", "_") if not isinstance(sp[k], bool) else ""), True,
                       (lambda k=k: dict(case, sp={kk: vv for kk, vv in sp.items() if kk != k}))))
@@ -883,6 +885,8 @@ def arff_family(reduced, symptom, culprits):
     data = [l for l in lines[k[0] + 1:] if l.strip() and not l.strip().startswith("%")] if k else []
     sq = any("'" in l for l in data)
     dq = any('"' in l for l in data)
+    if symptom == "missing-flag" and not dense and "missing" in C and not chars and any(c.startswith("sp-sparse_pad") for c in C):
+        return "arff-sparse:missing-flag-blank-before-closing-brace"
     if symptom == "missing-flag" and dense:
         if {"missing", "single-column"} <= C and not chars:
             return "arff-dense:lone-qmark-row-not-flagged-missing"
@@ -890,9 +894,10 @@ def arff_family(reduced, symptom, culprits):
             return "arff-dense:missing-flag-from-quoted-qmark"      # a quoted value holding "?," / ",?"
         if "missing" in C and not chars and any(c.startswith("sp-sep=TAB") for c in C):
             return "arff-dense:missing-flag-tab-delimited"
-    if chars and chars <= {"name-bs", "level-bs"} and symptom in ATTR_SYMPTOMS:
-        return "arff-attr:backslash-in-name-or-level"
-    if "level-comma" in chars and chars <= {"level-comma", "level-space"} and symptom == "raises-IndexError":
+    attr_only = bool(chars) and all(c.startswith(("name-", "level-")) for c in chars)
+    if attr_only and chars & {"name-bs", "level-bs"} and symptom in ATTR_SYMPTOMS + ("missing-marker",):
+        return "arff-attr:backslash-in-name-or-level"       # the failure needs a backslash in a name / nominal level
+    if "level-comma" in chars and all(c.startswith("level-") for c in chars) and symptom == "raises-IndexError":
         return "arff-attr:quoted-level-starting-with-comma"
     if symptom == "missing-marker" and {"level-qmark", "missing"} <= C and chars == {"level-qmark"}:
         return "arff:level-named-qmark-shadows-missing"
@@ -901,7 +906,7 @@ def arff_family(reduced, symptom, culprits):
         return "arff-sparse:quoted-value-in-data"
     if dense and symptom == "missing-marker" and chars == {"cell-qmark"}:
         return "arff-dense:quoted-qmark-string-read-as-missing"
-    if dense and "sp-sep=TAB" in C and chars & {"cell-comma", "level-comma"} and not any(c.startswith("name-") for c in chars):
+    if dense and any(c.startswith("sp-sep=TAB") for c in C) and chars & {"cell-comma", "level-comma"} and not any(c.startswith("name-") for c in chars):
         return "arff-dense:tab-delimited-with-comma-in-quoted-value"
     if dense and sq and dq and not any(c.startswith("name-") for c in chars) and \
             symptom in ("cell-str", "cell-cat", "raises-IndexError", "raises-CobaException", "raises-ValueError"):
@@ -928,8 +933,10 @@ def gen_arff_sp(rng, canonical_p=0.45):
     }
     keep = rng.choice([1, 2, 3, 6, 20])
     keys = rng.sample(sorted(opts), min(keep, len(opts)))
+    defaults = {"quote": "single", "kw_case": "lower", "type_case": "lower", "sep": ",", "attr_ws": " ", "nominal_sep": ",", "nominal_pad": "",
+                "numeric_word": "numeric", "sparse_sep": ",", "sparse_pad": ""}
     for k in keys:
-        if opts[k] not in (False, "", "lower", "single", ",", " ", "numeric"):
+        if opts[k] is not False and opts[k] != defaults.get(k):
             sp[k] = opts[k]
     return sp
 
@@ -947,8 +954,8 @@ def gen_via(rng, allow_http=True):
 class C12(Property):
     id = "C12"
     prop_modules = ["CobaVerif.Props.C12"]
-    quick_n = 1400
-    thorough_n = 30000
+    quick_n = 4000
+    thorough_n = 150000
     search_n = 2500
     case_timeout = 90
     workers = 8
@@ -974,6 +981,7 @@ class C12(Property):
     ]
     partial_theorems = {
         "chunk_invariance_partial": "the code as it stands is chunk-invariant only on cuts that split no character, no CR LF pair and do not end in an exotic line boundary; the full theorem chunk_invariance is proved for the repaired loop (fixes/C12-utf8-incremental-decoder.diff, fixes/C12-delim-line-boundaries.diff)",
+        "arff_dense_roundtrip_partial": "ArffLineReader reads back the data lines of the Weka/OpenML writer only when no value holds the other quote character: such lines go to the fallback parser (_dense_advanced), which loses backslashes and raises IndexError (known finding C12-F11, no small repair); attribute header and sparse rows are not modelled in Lean (differential test only)",
         "csv_roundtrip_partial": "CsvReader strips every line (str.strip) and raises StopIteration on an empty input; the full theorem csv_roundtrip is proved for the repaired reader (fixes/C12-csv-strip.diff, fixes/C12-csv-empty.diff)",
     }
 
@@ -1396,7 +1404,55 @@ class C12(Property):
             fails.append(F("B", "ArffReader().filter(lines) %s: %s.  Smallest variant that still fails: %r -> %r  (features needed: %s)"
                            % (res[0], res[1], arff_lines(red), arff_fail(red), ", ".join(left) or "none"), sig))
         impl_out = impl if "err" in impl else {"rows": len(impl["ok"])}
-        return {"fails": fails, "nontrivial": len(case["table"]["rows"]) >= 1, "tags": sorted(set(tags)), "impl": impl_out, "model": None}
+        model = None
+        if driver is not None and dense and case["via"]["mode"] == "lines":
+            model = self._arff_dense_model(case, lines, driver, fails, tags)
+        return {"fails": fails, "nontrivial": len(case["table"]["rows"]) >= 1, "tags": sorted(set(tags)), "impl": impl_out, "model": model}
+
+    def _arff_dense_model(self, case, lines, driver, fails, tags):
+        """(A) ArffLineReader on the data lines vs the Lean model of its simple path; (A) the spec's writer vs
+        the harness' writer and (C) the round-trip theorem, when the spelling is inside the theorem's writer"""
+        from coba.pipes.readers import ArffLineReader
+        t, sp = case["table"], case["sp"]
+        n = len(t["cols"])
+        k = [i for i, l in enumerate(lines) if l.strip().lower() == "@data"][0]
+        data = [l.strip() for l in lines[k + 1:] if l.strip() and not l.strip().startswith("%")]
+        try:
+            lr = ArffLineReader(True, n)
+            impl = {"ok": [[str(x) for x in lr.filter(l)] for l in data]}
+        except Exception as e:
+            impl = {"err": errname(e)}
+        ans = driver.ask({"op": "arffdense", "lines": [cps(l) for l in data], "n": n})["rows"]
+        model = {"err": ans["err"]} if "err" in ans else {"ok": [[uncps(f) for f in r] for r in ans["ok"]]}
+        if model == {"err": "CobaException"}:
+            tags.append("arffline:left-simple-path")          # fallback parser or column mismatch: not modelled
+        else:
+            tags.append("arffline:modelled")
+            if impl != model:
+                fails.append(F("A", "ArffLineReader(True,%d) on %r: implementation %r, model %r" % (n, data, impl, model), "A:arff-dense-line"))
+        sep = sp.get("sep", ",")
+        qs = sp.get("quote", "single")
+        if sep in (",", ", ", ",  ") and not sp.get("force_quote") and qs in ("single", "double"):
+            style = sp.get("style", "weka")
+            q = 39 if qs == "single" else 34
+            also = [39, 34, 37] if style == "weka" else ([39, 34] if qs == "single" else [])
+            rows = []
+            for i, row in enumerate(t["rows"]):
+                toks = []
+                for j, (c, v) in enumerate(zip(t["cols"], row)):
+                    w = arff_cell(c, v, sp, ("cell", i, j))
+                    raw = "?" if v is None else v
+                    toks.append({"q": w[:1] == chr(q) and len(w) >= 2 and w != raw, "f": cps(raw)})
+                rows.append({"pad": len(sep) - 1, "toks": toks})
+            w = driver.ask({"op": "arffwrite", "q": q, "also": also, "rows": rows})
+            if [uncps(l) for l in w["lines"]] != data:
+                fails.append(F("A", "data lines of the spec's ARFF writer %r differ from the harness writer %r" % ([uncps(l) for l in w["lines"]], data), "A:arff-writer"))
+            elif w["hyp"]:
+                tags.append("arffline:theorem-hypotheses-hold")
+                want = {"ok": [[("?" if v is None else v) for v in row] for row in t["rows"]]}
+                if model != want:
+                    fails.append(F("C", "model: arffLines(write rows) = %r, rows %r" % (model, want), "C:arff_dense_roundtrip_partial"))
+        return model
 
     # ------------------------------------------------------------------ shrinking / replay
     def shrink(self, case):
@@ -1406,8 +1462,17 @@ class C12(Property):
         if k == "chunk":
             t = case.get("text")
             if t:
-                for i in range(len(t)):
-                    yield dict(case, text=t[:i] + t[i + 1:])
+                n = len(t)
+                w = n // 2
+                while w >= 2:                     # blocks first (long texts), single characters last
+                    for i in range(0, n, w):
+                        yield dict(case, text=t[:i] + t[i + w:])
+                    w //= 2
+                    if n > 200 and w < n // 16:
+                        break
+                if n <= 200:
+                    for i in range(n):
+                        yield dict(case, text=t[:i] + t[i + 1:])
             if case["chunk"] == "all" and t is not None:
                 for kk in range(1, len(compress(t.encode(), case["enc"], case.get("level", 6))) + 2):
                     yield dict(case, chunk=kk)
